@@ -747,6 +747,24 @@ def check_key_material(facts, rep, rule="R-GUARD(keys)"):
                     found = y
                 elif names & {"is_metadata_valid_for", "is_buffer_valid"}:
                     weak = y
+        if found is None:
+            # iterator form: `if key_vector.iter().any(|key| !key.is_valid_for(..)) { panic }`
+            for y in walk(body):
+                if y.get("k") != "If" or not (facts.ty(y["th"]) == "!" or any(z.get("k") == "Ret" for z in walk(y["th"]))):
+                    continue
+                for cl in walk(y["c"]):
+                    if cl.get("k") != "Closure":
+                        continue
+                    elems = set()
+                    for prm in cl.get("params", []):
+                        for l, _ in pat_bindings(prm.get("pat", prm)):
+                            elems.add(l)
+                    names = {z["name"] for z in walk(cl.get("body") or {}) if z.get("k") == "MCall" and
+                             (root_local(z["recv"]) or (None,))[0] in elems}
+                    if "is_valid_for" in names or ("is_metadata_valid_for" in names and "is_data_valid_for" in names):
+                        found = y
+                    elif names & {"is_metadata_valid_for", "is_buffer_valid"}:
+                        weak = weak or y
         if found is not None:
             rep.ok(rule, key, "every key of the selected vector passes a refusing data-validity check", facts.loc(p, found),
                    sample={"function": p})
